@@ -765,6 +765,7 @@ def unpack_uint(chunk):
 # --------------------------------------------------------------------------------------------
 # struct shim
 # --------------------------------------------------------------------------------------------
+_EVIEW = [None, None, None]      # [EView class, alloc(total), EBlob class] - filled in by symex.elastic users (api.py)
 _FMT = {'B': 1, 'H': 2, 'I': 4, 'L': 4, 'Q': 8}       # unsigned, network order ('L' is 4 bytes with '!')
 
 
@@ -817,6 +818,18 @@ class SymStruct:
 
     @classmethod
     def pack_into(cls, fmt, buf, offset, *vals):
+        if buf.__class__ is _EVIEW[0]:
+            out = cls._pack_list(fmt, vals)
+            n = s_len(buf)
+            if offset < 0:
+                offset = offset + n
+            if offset < 0 or offset + _len(out) > n:
+                raise _struct.error('pack_into requires a buffer of at least %d bytes' % _len(out))
+            if buf.readonly:
+                raise TypeError('argument must be read-write bytes-like object')
+            for k, x in enumerate(out):
+                buf.buf.put(buf.a + offset + k, x)
+            return None
         if not _isinstance(buf, SBytes) and not _isinstance(offset, SInt) \
                 and not any(_isinstance(v, (SInt, SBool)) for v in vals):
             return _struct.pack_into(fmt, buf, offset, *vals)
@@ -838,6 +851,11 @@ class SymStruct:
     @classmethod
     def unpack(cls, fmt, buf):
         sizes = cls._items(fmt)
+        if buf.__class__ is _EVIEW[0]:
+            n = s_len(buf)
+            if n != sum(sizes):
+                raise _struct.error('unpack requires a buffer of %d bytes' % sum(sizes))
+            buf = SBytes([buf[i] for i in range(sum(sizes))])
         if not _isinstance(buf, SBytes):
             return _struct.unpack(fmt, buf)
         if _len(buf) != sum(sizes):
@@ -852,6 +870,18 @@ class SymStruct:
 
     @classmethod
     def unpack_from(cls, fmt, buf, offset=0):
+        if buf.__class__ is _EVIEW[0]:
+            raw = cls._raw(fmt)
+            n = raw if raw is not None else sum(cls._items(fmt))
+            ln = s_len(buf)
+            if offset < 0:
+                offset = offset + ln
+            if offset < 0 or offset + n > ln:
+                raise _struct.error('unpack_from requires a buffer of at least %d bytes' % n)
+            chunk = SBytes([buf[offset + k] for k in range(n)])
+            if raw is not None:
+                return (chunk.tobytes(),)
+            return cls.unpack(fmt, chunk)
         raw = cls._raw(fmt)
         if raw is not None:
             if not _isinstance(buf, SBytes) and not _isinstance(offset, SInt):
@@ -923,6 +953,11 @@ def _has_sym(seq):
 
 class s_bytes(_bytes):
     def __new__(cls, x=b'', *a):
+        if x.__class__ is _EVIEW[0]:
+            n = x.__slen__()
+            if n.__class__ is not _int:
+                raise HarnessError('elastic: bytes() of a window of symbolic length')
+            return s_bytes([x[i] for i in range(n)])
         if _isinstance(x, SBytes):
             c = x.concrete()
             return c if c is not None else SBytes(x.items(), kind='bytes')
@@ -939,6 +974,8 @@ class s_bytearray(_bytearray):
         if _isinstance(x, SBytes):
             return SBytes(x.items(), kind='bytearray')
         if _isinstance(x, SInt):
+            if ENG.elastic_mode and ENG.const_of(x.e) is None:
+                return _EVIEW[1](x)
             x = ENG.alloc_size(x)
         if ENG is not None and ENG.symbolic_buffers:
             if _isinstance(x, _int):
@@ -959,6 +996,10 @@ class s_bytearray(_bytearray):
 
 class s_memoryview:
     def __new__(cls, x):
+        if x.__class__ is _EVIEW[0]:
+            return _EVIEW[0](x.buf, x.a, x.b, 'memoryview', x.readonly)
+        if x.__class__ is _EVIEW[2]:
+            raise HarnessError('elastic: memoryview of the opaque payload')
         if _isinstance(x, SBytes):
             return SBytes(x.d, x.a, x.b, 'memoryview', x.readonly)
         return _memoryview(x)
@@ -983,7 +1024,7 @@ def s_isinstance(obj, cls):
     c = obj.__class__
     if c is SInt:
         return _int in _norm(cls)
-    if c is SBytes:
+    if c is SBytes or c is _EVIEW[0] or c is _EVIEW[2]:
         return _KIND[obj.kind] in _norm(cls)
     if c is SBool:
         cs = _norm(cls)
@@ -1003,7 +1044,7 @@ def s_isinstance2(obj, cls):
 
 def _isinstance_shim(obj, cls):
     c = obj.__class__
-    if c is SInt or c is SBytes or c is SBool:
+    if c is SInt or c is SBytes or c is SBool or c is _EVIEW[0] or c is _EVIEW[2]:
         return s_isinstance(obj, cls)
     if cls.__class__ is tuple or cls in _BACK:
         return _isinstance(obj, _norm(cls))
@@ -1118,6 +1159,7 @@ class Engine:
         self.max_paths = max_paths
         self.max_fork = max_fork
         self.symbolic_buffers = True
+        self.elastic_mode = False  # harness switch: bytearray(<non-constant SInt>) allocates an elastic buffer
         self.format_concretize = False
         self.violations = []       # Violation objects (all of them; the runner de-duplicates)
         self.path_records = []     # per finished path: dict(decisions, inputs, obs, labels)
@@ -1146,6 +1188,7 @@ class Engine:
         self.aborted = False
         self.abort_reason = None
         self.format_concretize = False
+        self.elastic_mode = False
         self.hash_candidates = []
         self.int_hash_candidates = None
         self.path_state = {}       # free for stubs (hash registry, clocks, ...)
@@ -1459,6 +1502,13 @@ class Engine:
             out.append(SInt(v))
         return SBytes(out, kind=kind)
 
+    def elastic(self, name, lo, hi):
+        """opaque payload whose LENGTH is a solver variable in [lo, hi] (see symex/elastic.py); switches the path
+        to elastic mode.  Returns (payload, length)."""
+        n = self.int(name + '.len', lo, hi)
+        self.elastic_mode = True
+        return _EVIEW[2](n, self._name(name)), n
+
     def choice(self, n, name=''):
         """discrete nondeterministic choice in range(n) (a decision with n feasible alternatives)"""
         if n <= 1:
@@ -1652,6 +1702,17 @@ class ConcreteEngine:
         if kind == 'memoryview':
             return _memoryview(b)
         return b
+
+    def elastic(self, name, lo, hi):
+        n = self.int(name + '.len', lo, hi)
+        nm = self._name(name)
+        b = _bytearray((7 * i + 3) & 0xFF for i in range(n))
+        for k, v in self.inputs_in.items():        # octets the symbolic run looked at: the model's values
+            if k.startswith(nm + '@'):
+                i = _int(k[_len(nm) + 1:])
+                if i < n:
+                    b[i] = v
+        return _bytes(b), n
 
     def choice(self, n, name=''):
         if n <= 1:
